@@ -124,11 +124,37 @@ def mapLine (s : St) : String :=
 
 end TqDrv
 
+/-! ## endpoint pool -/
+namespace EpDrv
+open EP
+
+def nkeys : Nat := 6
+def ms (n : Nat) : Nat := n * 1000000
+
+def optTok? (tok : String) : Option (Option Nat) :=
+  if tok = "-" then some none else tok.toNat?.map some
+
+def epLine (s : St) (e : Nat) : String :=
+  let E := s.eps e
+  let x := if E.expiresAt ≤ 1 then toString E.expiresAt else toString (E.expiresAt / 1000000) ++ "ms"
+  let tup := (E.tuples.toArray.qsort (· < ·)).toList
+  s!"{e}:f{boolStr E.failed}d{boolStr E.dead}c{E.connCloses}x{x}s{boolStr E.hasSent}r{boolStr E.hasReply}n{E.natTimeout / 1000000}t{joinNat tup}"
+
+def digest (s : St) : String :=
+  let pool := (List.range nkeys).filterMap fun k => (s.pool k).map fun e => s!"{k}:{e}"
+  let p := if pool.isEmpty then "-" else ",".intercalate pool
+  let eps := (List.range s.neps).map (epLine s)
+  let e := if eps.isEmpty then "-" else " ".intercalate eps
+  s!"pool={p} dials={s.dials} drn={(s.drn 0).active},{(s.drn 1).active} trk0[{TrkDrv.digest (s.trk 0)}] trk1[{TrkDrv.digest (s.trk 1)}] eps={e}"
+
+end EpDrv
+
 structure DrvSt where
   trk : List Tracker.St := [Tracker.init, Tracker.init]
   drn : Drain.St := Drain.init
   tqCfg : TQ.Cfg := TQ.fixedCfg
   tq : TQ.St := TQ.init
+  ep : EP.St := EP.init
 
 def boolTok? : String → Option Bool
   | "1" => some true | "0" => some false | _ => none
@@ -283,12 +309,66 @@ def handleTq (st : DrvSt) (toks : List String) : DrvSt × String :=
     | none => (st, "bad-op")
   | _ => (st, "bad-op")
 
+def handleEp (st : DrvSt) (toks : List String) : DrvSt × String :=
+  let s := st.ep
+  let upd (s' : EP.St) (out : String) : DrvSt × String := ({ st with ep := s' }, out)
+  match toks with
+  | ["reset"] => upd EP.init "ok"
+  | ["st"] => (st, EpDrv.digest s)
+  | ["goc", k, sym, nat, owner, drain, d, out] =>
+    match k.toNat?, boolTok? sym, nat.toNat?, EpDrv.optTok? owner, EpDrv.optTok? drain, d.toNat?,
+      (match out with | "ok" => some EP.DialOutcome.ok | "gen" => some .failGeneric | "noalive" => some .failNoAlive | _ => none) with
+    | some k, some sym, some nat, some owner, some drain, some d, some out =>
+      let r := EP.getOrCreate s k sym (EpDrv.ms nat) owner drain d out
+      upd r.1 (match r.2 with
+        | .hit e => s!"hit {e}" | .created e => s!"new {e}" | .errFailed => "err-failed" | .errDial => "err-dial")
+    | _, _, _, _, _, _, _ => (st, "bad-op")
+  | ["get", k] =>
+    match k.toNat? with
+    | some k => (st, match EP.get s k with | some e => s!"e{e}" | none => "none")
+    | none => (st, "bad-op")
+  | ["write", e, out] =>
+    match e.toNat?, (match out with | "ok" => some EP.WriteOutcome.ok | "err" => some .err | "short" => some .short | _ => none) with
+    | some e, some out => let r := EP.writeTo s e out; upd r.1 (if r.2 then "ok" else "fail")
+    | _, _ => (st, "bad-op")
+  | ["reply", e, ok] =>
+    match e.toNat?, boolTok? ok with
+    | some e, some ok => upd (EP.reply s e ok) "ok"
+    | _, _ => (st, "bad-op")
+  | ["readerr", e] =>
+    match e.toNat? with
+    | some e => upd (EP.readError s e) "ok"
+    | none => (st, "bad-op")
+  | ["remove", k, e] =>
+    match k.toNat?, e.toNat? with
+    | some k, some e => upd (EP.remove s k e) (if s.pool k = some e then "removed" else "not-in-pool")
+    | _, _ => (st, "bad-op")
+  | ["close", e] =>
+    match e.toNat? with
+    | some e => upd (EP.closeEp s e) "ok"
+    | none => (st, "bad-op")
+  | ["adv", dt] =>
+    match dt.toNat? with
+    | some dt => upd (EP.advance EpDrv.nkeys (dt / 250 + 2) s (EpDrv.ms dt)) "ok"
+    | none => (st, "bad-op")
+  | ["inval", d] =>
+    match d.toNat? with
+    | some d => let r := EP.invalidate s d; upd r.1 s!"removed={r.2}"
+    | none => (st, "bad-op")
+  | ["resetpool"] => upd (EP.reset EpDrv.nkeys s) "ok"
+  | ["track", e, j] =>
+    match e.toNat?, j.toNat? with
+    | some e, some j => upd (EP.track s e j) "ok"
+    | _, _ => (st, "bad-op")
+  | _ => (st, "bad-op")
+
 def handle (st : DrvSt) (line : String) : DrvSt × String :=
   match words line with
   | "trk" :: rest => handleTrk st rest
   | "drn" :: rest => handleDrn st rest
   | "key" :: rest => (st, handleKey rest)
   | "tq" :: rest => handleTq st rest
+  | "ep" :: rest => handleEp st rest
   | _ => (st, "bad-op")
 
 def main : IO Unit := lineLoopS ({} : DrvSt) handle
